@@ -131,6 +131,44 @@ reverse scores of later column blocks would be normalised by another neuron's se
 theorem source_append_sites_aligned :
     Gen.Smat.appendSites.all appendAligned = true ∧ 7 ≤ Gen.Smat.appendSites.length := by decide
 
+/-- **The built-in table is handed out as a deep copy of the cached one** (`smat_fcwb` returns
+`deepcopy(_smat_fcwb(alpha))`, `_smat_fcwb` is `lru_cache`d): replacing the deep copy by `copy.copy` (new
+outer object, shared `.cells` / `.boundaries`) or by the cached object breaks this. -/
+theorem source_fcwb_copy_is_deep : Gen.Smat.fcwbCopy = .deep ∨ Gen.Smat.fcwbCached = false := by decide
+
+/-- **A caller's in-place edit of the returned table cannot reach the cached table iff the copy is deep**:
+for every memory, cache address, fresh address and edit, the cached array is unchanged after
+"fetch, then edit what was returned" exactly when the hand-out is a deep copy. -/
+theorem cache_isolated_iff_deep (k : CopyKind) :
+    (∀ (m : Mem) (c fresh : Nat) (v : List Rat), fresh ≠ c → fetchEdit k c m (fresh, v) c = m c) ↔ k = .deep := by
+  constructor
+  · intro h
+    cases k with
+    | deep => rfl
+    | shallow =>
+      have := h (fun _ => []) 0 1 [1] (by decide)
+      simp [fetchEdit, handOut, editAt] at this
+    | none =>
+      have := h (fun _ => []) 0 1 [1] (by decide)
+      simp [fetchEdit, handOut, editAt] at this
+  · rintro rfl m c fresh v hne
+    have hc : c ≠ fresh := fun e => hne e.symm
+    simp [fetchEdit, handOut, editAt, hc]
+
+/-- … and along every history of fetch-and-edit rounds (fresh addresses never being the cache's): with a
+deep copy the cached table — what the next default-table NBLAST reads — is the published one throughout. -/
+theorem cache_unchanged_along_history (c : Nat) (m : Mem) (rounds : List (Nat × List Rat))
+    (hf : ∀ r ∈ rounds, r.1 ≠ c) : (rounds.foldl (fetchEdit .deep c) m) c = m c := by
+  induction rounds generalizing m with
+  | nil => rfl
+  | cons r rs ih =>
+    simp only [List.foldl_cons]
+    rw [ih (fetchEdit .deep c m r) (fun x hx => hf x (List.mem_cons_of_mem _ hx))]
+    exact (cache_isolated_iff_deep .deep).mpr rfl m c r.1 r.2 (hf r (List.mem_cons_self ..))
+
+/-- with a shallow copy one round is enough to change what the cache holds -/
+example : fetchEdit .shallow 0 (fun _ => [1, 2]) (1, [4, 8]) 0 = [4, 8] := by decide
+
 /-- Both shipped score matrices parse (labels abut, one closedness per axis, strictly increasing
 boundaries, cell matrix of the right shape). -/
 theorem default_tables_parse : Gen.Smat.fcwb.isSome = true ∧ Gen.Smat.fcwbAlpha.isSome = true := by
